@@ -30,6 +30,9 @@ CLAIMS = {
  "C13": ("model_checking",
          "Queue.tla (unbounded.Channel, instruction-level) is checked exhaustively (exactly-once/in-order, no lost wake-up, liveness) and EVERY complete interleaving TLC enumerates (2548 for 2x2) is forced on the real Channel through the hook in Put and validated by TLC; Locks.tla (lock/guarded-access sequences of 10 lifecycle operations) is checked for deadlock and lockset discipline over every pair and triple, its faithful switches re-finding F4/F5/F8/F18; on the real code the deadlock schedules are forced with gates + watchdog + goroutine dump, and racing rounds run under the race detector.",
          "data races are decided by Go's race detector on executed rounds; Locks.tla is a hand transcription of the lock sequences (drift is only visible through the forced schedules and the race rounds)"),
+ "C16": ("model_checking",
+         "Stores.tla (token/stateful.go over an explicit file-system model with editors' tags, an external editor and a crash between any two file-system steps) is checked exhaustively against E1-E4; TLC-simulated and seeded behaviours (library calls, external edits, restarts, a crash at each of the six named points of add()/rewrite() executed in a child process) run on the real token package with an independent reader after every step, plus parallel read-tag/conditional-write editors; Trace_Stores judges.",
+         "library level; successive file versions are made distinguishable as the property assumes; process crashes only, no power loss"),
 }
 REASON_DEFAULT = "check under construction (not yet registered); see DESIGN.md section 5"
 NA = {}
